@@ -628,6 +628,9 @@ func (vc *VC) rootVar(e ast.Expr, out map[*types.Var]bool) {
 			return
 		case *ast.IndexExpr:
 			// store into slice/array variable (value semantics) modifies the variable; through map: heap
+			if _, isMap := vc.typeOf(x.X).Underlying().(*types.Map); isMap {
+				return
+			}
 			e = x.X
 		case *ast.SelectorExpr:
 			if sel, ok := vc.info.Selections[x]; ok && sel.Kind() == types.FieldVal {
@@ -1126,6 +1129,58 @@ func (vc *VC) execRange(st *State, x *ast.RangeStmt) *State {
 		valVar = declare(x.Value, nil)
 	}
 
+	// unordered collections: the set of keys already visited (hidden variable __vis<ord>, usable in invariants)
+	var visVar *types.Var
+	var iterFC *FuncContract
+	var iterBind func(c *SpecCtx)
+	var domOf func(s *State) (Term, bool)
+	if kind == KFunc {
+		if call, ok := ast.Unparen(x.X).(*ast.CallExpr); ok {
+			if fc := vc.contractForCall(call); fc != nil && (len(fc.Yields) > 0 || fc.YieldsDomain != nil) {
+				iterFC = fc
+				ci := vc.resolveCallee(call)
+				var recv *Term
+				if ci.recv != nil {
+					pre := st.clone()
+					r := vc.eval(pre, ci.recv)
+					if len(ci.recvPath) > 0 {
+						r = vc.selectPath(pre, r, ci.recvType, ci.recvPath, nil)
+					}
+					recv = &r
+				}
+				iterBind = func(c *SpecCtx) {
+					c.typeArgs = ci.typeArgs
+					if ci.fn != nil {
+						vc.bindParams(c, fc, ci.fn, recv, nil)
+					}
+				}
+				if fc.YieldsDomain != nil {
+					domOf = func(s *State) (Term, bool) {
+						yc := vc.newSpecCtx(fc, s, s)
+						iterBind(yc)
+						d := yc.tr(fc.YieldsDomain.Expr)
+						return d, d.Sort != nil && d.Sort.Kind == KSet && !d.Sort.IsMap
+					}
+				}
+			}
+		}
+	}
+	if kind == KMap {
+		domOf = func(s *State) (Term, bool) {
+			dom, _ := vc.mapHeaps(s, coll.Sort)
+			return Term{"(select " + dom.S + " " + coll.S + ")", vc.U.setSort(coll.Sort.Key)}, true
+		}
+	}
+	var visSort *Sort
+	if domOf != nil {
+		if d, ok := domOf(st); ok {
+			visSort = d.Sort
+			visVar = types.NewVar(x.Pos(), vc.pkg.Types, fmt.Sprintf("__vis%d", ord), types.Typ[types.Int])
+			st.vars[visVar] = Term{fmt.Sprintf("((as const %s) false)", visSort.Name), visSort}
+			st.names[visVar.Name()] = visVar
+		}
+	}
+
 	indexable := kind == KSlice || kind == KArr || kind == KInt || kind == KStr
 	if keyVar != nil && indexable && !vc.cellVars[keyVar] {
 		st.vars[keyVar] = Term{"0", vc.U.sortOf(keyVar.Type())}
@@ -1161,6 +1216,19 @@ func (vc *VC) execRange(st *State, x *ast.RangeStmt) *State {
 		head.vars[valVar] = vc.fresh(valVar.Name(), vc.U.sortOf(valVar.Type()))
 		vc.typeInvariant(head, head.vars[valVar])
 	}
+	var hiddenKey Term
+	if visVar != nil {
+		head.vars[visVar] = vc.fresh("vis", visSort)
+		if d, ok := domOf(head); ok {
+			// implicit invariant: only keys of the collection have been visited
+			vc.assume(head, fmt.Sprintf("(forall ((x!v %s)) (! (=> (select %s x!v) (select %s x!v)) :pattern ((select %s x!v))))", visSort.Elem.Name, head.vars[visVar].S, d.S, head.vars[visVar].S))
+		}
+		if keyVar != nil {
+			hiddenKey = head.vars[keyVar]
+		} else {
+			hiddenKey = vc.fresh("key", visSort.Elem)
+		}
+	}
 	snap.head = head
 	for _, inv := range ls.Invariants {
 		t := vc.specIn(head, inv)
@@ -1179,6 +1247,13 @@ func (vc *VC) execRange(st *State, x *ast.RangeStmt) *State {
 		more := vc.fresh("more", sortBool)
 		vc.assume(body, more.S)
 		vc.assume(exit, sNot(more.S))
+		if visVar != nil {
+			// this iteration's key has not been visited; a normal end of the loop has visited every key
+			vc.assume(body, sNot("(select "+head.vars[visVar].S+" "+hiddenKey.S+")"))
+			if d, ok := domOf(exit); ok {
+				vc.assume(exit, fmt.Sprintf("(forall ((x!v %s)) (! (=> (select %s x!v) (select %s x!v)) :pattern ((select %s x!v))))", visSort.Elem.Name, d.S, exit.vars[visVar].S, exit.vars[visVar].S))
+			}
+		}
 	}
 	// bind key / value for this iteration
 	switch kind {
@@ -1209,17 +1284,31 @@ func (vc *VC) execRange(st *State, x *ast.RangeStmt) *State {
 		}
 	case KFunc:
 		// range over an iterator: elements satisfy the `yields` clauses of the function that produced it
-		if call, ok := ast.Unparen(x.X).(*ast.CallExpr); ok {
-			if fc := vc.contractForCall(call); fc != nil && len(fc.Yields) > 0 {
-				yc := vc.newSpecCtx(fc, body, body)
-				if keyVar != nil {
-					yc.vars["k"] = body.vars[keyVar]
+		if iterFC != nil {
+			fc := iterFC
+			yc := vc.newSpecCtx(fc, body, body)
+			iterBind(yc)
+			if keyVar != nil {
+				yc.vars["k"] = body.vars[keyVar]
+			} else if visVar != nil {
+				yc.vars["k"] = hiddenKey
+			}
+			if valVar != nil {
+				yc.vars["v"] = body.vars[valVar]
+			} else if it, ok := vc.typeOf(x.X).Underlying().(*types.Signature); ok && it.Params().Len() == 1 {
+				// the value is not bound by the loop: an arbitrary value of the iterator's second type
+				if ys, ok := it.Params().At(0).Type().Underlying().(*types.Signature); ok && ys.Params().Len() == 2 {
+					hv := vc.fresh("itv", vc.U.sortOf(ys.Params().At(1).Type()))
+					vc.typeInvariant(body, hv)
+					yc.vars["v"] = hv
 				}
-				if valVar != nil {
-					yc.vars["v"] = body.vars[valVar]
-				}
-				for _, y := range fc.Yields {
-					vc.assume(body, yc.tr(y.Expr).S)
+			}
+			for _, y := range fc.Yields {
+				vc.assume(body, yc.tr(y.Expr).S)
+			}
+			if visVar != nil {
+				if d, ok := domOf(body); ok {
+					vc.assume(body, "(select "+d.S+" "+hiddenKey.S+")")
 				}
 			}
 		}
@@ -1238,6 +1327,9 @@ func (vc *VC) execRange(st *State, x *ast.RangeStmt) *State {
 	if !body.dead {
 		cur := body.vars[idxVar]
 		body.vars[idxVar] = Term{"(+ " + cur.S + " 1)", sortInt}
+		if visVar != nil {
+			body.vars[visVar] = Term{"(store " + body.vars[visVar].S + " " + hiddenKey.S + " true)", visSort}
+		}
 		if keyVar != nil && (kind == KSlice || kind == KArr || kind == KInt || kind == KStr) && !vc.cellVars[keyVar] {
 			body.vars[keyVar] = Term{body.vars[idxVar].S, vc.U.sortOf(keyVar.Type())}
 		}
